@@ -5,6 +5,7 @@ go 1.21.1
 require (
 	github.com/fxamacker/cbor/v2 v2.5.0
 	github.com/ghodss/yaml v1.0.0
+	github.com/safing/jess v0.3.3
 	github.com/safing/portbase v0.18.6
 	github.com/vmihailenco/msgpack/v5 v5.4.1
 )
@@ -31,7 +32,6 @@ require (
 	github.com/mitchellh/copystructure v1.2.0 // indirect
 	github.com/mitchellh/reflectwalk v1.0.2 // indirect
 	github.com/mr-tron/base58 v1.2.0 // indirect
-	github.com/safing/jess v0.3.3 // indirect
 	github.com/satori/go.uuid v1.2.0 // indirect
 	github.com/seehuhn/fortuna v1.0.1 // indirect
 	github.com/seehuhn/sha256d v1.0.0 // indirect
